@@ -5,6 +5,7 @@ struct narrowing WIDE → PAIR across the pipeline boundary, projections through
 the boundary, struct / array literals mixing references and constants.
 -/
 import Martian.ResolverStaticCheck
+import Martian.ResolverStaticTree
 
 namespace Proofs.ResolverStatic
 open Martian.Dataflow Martian.ResolverForks Martian.ResolverStatic
@@ -53,6 +54,20 @@ def exPlainOracle : Oracle := fun k =>
   else if k.path == ["TOP", "U2"] then some (.obj [("r", .atom "12")])
   else none
 
+/-- the recorded outs of `exPlain` by NODE NAME: an oracle that does not distinguish call paths
+with the same name (what `StoreOf` demands of the oracle for a naming that is not injective on
+arbitrary lists, such as the "."-join) -/
+def exPlainOuts (name : String) : Option J :=
+  if name == "TOP.GEN" then
+    some (.obj [("w", exWide "1"), ("x", .atom "3"), ("ws", .arr [exWide "8", .null, exWide "9"]), ("junk", .atom "0")])
+  else if name == "TOP.INNER.USE" then some (.obj [("r", .atom "11")])
+  else if name == "TOP.U2" then some (.obj [("r", .atom "12")])
+  else none
+
+def exPlainOracleN : Oracle := fun k => exPlainOuts (exNm k.path)
+
+def exPlainStoreN : Store := { outs := fun node _ => (exPlainOuts node).getD .null, idx := fun _ _ => [] }
+
 def exPlainStore : Store :=
   { outs := fun node f =>
       if node == "TOP.GEN" then (exPlainOracle ⟨["TOP", "GEN"], f⟩).getD .null
@@ -95,6 +110,104 @@ def exMapOracle : Oracle := fun k =>
     | _ => none
   else if k.path == ["TOP", "USE"] then some (.obj [("r", .atom "99")])
   else none
+
+/-- map calls of a stage in typed-map mode and over a literal that arrives through a pipeline input -/
+def exMapG : Program :=
+  { structs := [("PAIR", [⟨"a", xInt⟩, ⟨"b", xStr⟩]),
+                ("WIDE", [⟨"a", xInt⟩, ⟨"b", xStr⟩, ⟨"c", ⟨"float", 0, 0⟩⟩])]
+    callables :=
+      [ ("GEN", .stage [⟨"n", xInt⟩] [⟨"w", xWide⟩, ⟨"x", xInt⟩]),
+        ("WORK", .stage [⟨"x", xInt⟩, ⟨"p", xPair⟩, ⟨"k", xInt⟩] [⟨"y", xInt⟩, ⟨"q", xWide⟩]),
+        ("USEM", .stage [⟨"ys", ⟨"int", 1, 0⟩⟩, ⟨"qs", ⟨"PAIR", 1, 0⟩⟩, ⟨"qa", ⟨"int", 1, 0⟩⟩] [⟨"r", xInt⟩]),
+        ("INNER", .pipeline [⟨"xs", ⟨"int", 0, 1⟩⟩, ⟨"ps", ⟨"PAIR", 0, 1⟩⟩, ⟨"k", xInt⟩]
+            [⟨"ys", ⟨"int", 0, 1⟩⟩, ⟨"qs", ⟨"PAIR", 0, 1⟩⟩]
+          [ { id := "WORK", callee := "WORK", mapped := true, disabled := none,
+              binds := [⟨"x", true, .self "xs" []⟩, ⟨"p", true, .self "ps" []⟩, ⟨"k", false, .self "k" []⟩] } ]
+          [("ys", .ref "WORK" ["y"]), ("qs", .ref "WORK" ["q"])]),
+        ("TOP", .pipeline [⟨"v", xInt⟩] [⟨"ys", ⟨"int", 0, 1⟩⟩, ⟨"ms", ⟨"int", 1, 0⟩⟩, ⟨"r", xInt⟩]
+          [ { id := "GEN", callee := "GEN", mapped := false, disabled := none,
+              binds := [⟨"n", false, .self "v" []⟩] },
+            { id := "IN", callee := "INNER", mapped := false, disabled := none,
+              binds := [⟨"xs", false, .arr [.lit (.atom "1"), .ref "GEN" ["x"]]⟩,
+                        ⟨"ps", false, .arr [.ref "GEN" ["w"], .struct [("a", .lit (.atom "2")), ("b", .lit (.atom "\"t\""))]]⟩,
+                        ⟨"k", false, .self "v" []⟩] },
+            { id := "W2", callee := "WORK", mapped := true, disabled := none,
+              binds := [⟨"x", true, .map [("ka", .self "v" []), ("kb", .ref "GEN" ["x"])]⟩,
+                        ⟨"p", false, .ref "GEN" ["w"]⟩, ⟨"k", false, .lit (.atom "7")⟩] },
+            { id := "USEM", callee := "USEM", mapped := false, disabled := none,
+              binds := [⟨"ys", false, .ref "W2" ["y"]⟩, ⟨"qs", false, .ref "W2" ["q"]⟩,
+                        ⟨"qa", false, .ref "W2" ["q", "a"]⟩] } ]
+          [("ys", .ref "IN" ["ys"]), ("ms", .ref "W2" ["y"]), ("r", .ref "USEM" ["r"])]) ]
+    top := { id := "TOP", callee := "TOP", mapped := false, disabled := none,
+             binds := [⟨"v", false, .lit (.atom "5")⟩] } }
+
+def exMapGOracle : Oracle := fun k =>
+  if k.path == ["TOP", "GEN"] then some (.obj [("w", exWide "1"), ("x", .atom "3")])
+  else if k.path == ["TOP", "IN", "WORK"] then
+    match k.forks with
+    | [("WORK", .i n)] => some (.obj [("y", .atom (toString (10 + n))), ("q", exWide (toString (20 + n)))])
+    | _ => none
+  else if k.path == ["TOP", "W2"] then
+    match k.forks with
+    | [("W2", .k s)] => some (.obj [("y", .atom ("\"" ++ s ++ "\"")), ("q", exWide "30")])
+    | _ => none
+  else if k.path == ["TOP", "USEM"] then some (.obj [("r", .atom "99")])
+  else none
+
+def exMapGStore : Store := storeOfNodes exNm (staticProgram exMapG exNm).2 exMapGOracle
+
+/-- a pipeline mapped over an array literal whose body has a stage that depends on the split value,
+one that does not, a NESTED map call over a literal that mixes the split value with a constant,
+and a pass-through return of the split value -/
+def exPipe : Program :=
+  { structs := [("PAIR", [⟨"a", xInt⟩, ⟨"b", xStr⟩])]
+    callables :=
+      [ ("GEN", .stage [⟨"n", xInt⟩] [⟨"p", xPair⟩, ⟨"x", xInt⟩]),
+        ("WORK", .stage [⟨"x", xInt⟩, ⟨"k", xInt⟩] [⟨"y", xInt⟩, ⟨"q", xPair⟩]),
+        ("CONST", .stage [⟨"k", xInt⟩] [⟨"c", xInt⟩]),
+        ("USE", .stage [⟨"ys", ⟨"int", 0, 1⟩⟩, ⟨"zs", ⟨"int", 0, 2⟩⟩, ⟨"qs", ⟨"PAIR", 0, 1⟩⟩, ⟨"cs", ⟨"int", 0, 1⟩⟩,
+                        ⟨"xs", ⟨"int", 0, 1⟩⟩] [⟨"r", xInt⟩]),
+        ("INNER", .pipeline [⟨"x", xInt⟩, ⟨"k", xInt⟩]
+            [⟨"y", xInt⟩, ⟨"zs", ⟨"int", 0, 1⟩⟩, ⟨"q", xPair⟩, ⟨"c", xInt⟩, ⟨"x2", xInt⟩]
+          [ { id := "WORK", callee := "WORK", mapped := false, disabled := none,
+              binds := [⟨"x", false, .self "x" []⟩, ⟨"k", false, .self "k" []⟩] },
+            { id := "CONST", callee := "CONST", mapped := false, disabled := none,
+              binds := [⟨"k", false, .self "k" []⟩] },
+            { id := "W2", callee := "WORK", mapped := true, disabled := none,
+              binds := [⟨"x", true, .arr [.self "x" [], .lit (.atom "7")]⟩, ⟨"k", false, .ref "WORK" ["y"]⟩] } ]
+          [("y", .ref "WORK" ["y"]), ("zs", .ref "W2" ["y"]), ("q", .ref "WORK" ["q"]),
+           ("c", .ref "CONST" ["c"]), ("x2", .self "x" [])]),
+        ("TOP", .pipeline [⟨"v", xInt⟩] [⟨"ys", ⟨"int", 0, 1⟩⟩, ⟨"r", xInt⟩]
+          [ { id := "GEN", callee := "GEN", mapped := false, disabled := none,
+              binds := [⟨"n", false, .self "v" []⟩] },
+            { id := "INNER", callee := "INNER", mapped := true, disabled := none,
+              binds := [⟨"x", true, .arr [.lit (.atom "1"), .self "v" [], .ref "GEN" ["x"]]⟩,
+                        ⟨"k", false, .ref "GEN" ["x"]⟩] },
+            { id := "USE", callee := "USE", mapped := false, disabled := none,
+              binds := [⟨"ys", false, .ref "INNER" ["y"]⟩, ⟨"zs", false, .ref "INNER" ["zs"]⟩,
+                        ⟨"qs", false, .ref "INNER" ["q"]⟩, ⟨"cs", false, .ref "INNER" ["c"]⟩,
+                        ⟨"xs", false, .ref "INNER" ["x2"]⟩] } ]
+          [("ys", .ref "INNER" ["y"]), ("r", .ref "USE" ["r"])]) ]
+    top := { id := "TOP", callee := "TOP", mapped := false, disabled := none,
+             binds := [⟨"v", false, .lit (.atom "5")⟩] } }
+
+def exPipeOracle : Oracle := fun k =>
+  if k.path == ["TOP", "GEN"] then some (.obj [("p", .obj [("a", .atom "1"), ("b", .atom "\"x\"")]), ("x", .atom "3")])
+  else if k.path == ["TOP", "INNER", "WORK"] then
+    match k.forks with
+    | [("INNER", .i n)] => some (.obj [("y", .atom (toString (10 + n))),
+        ("q", .obj [("a", .atom (toString (20 + n))), ("b", .atom "\"q\"")])])
+    | _ => none
+  else if k.path == ["TOP", "INNER", "CONST"] then some (.obj [("c", .atom "4")])
+  else if k.path == ["TOP", "INNER", "W2"] then
+    match k.forks with
+    | [("INNER", .i n), ("W2", .i m)] => some (.obj [("y", .atom (toString (100 + 10 * n + m))), ("q", .null)])
+    | _ => none
+  else if k.path == ["TOP", "USE"] then some (.obj [("r", .atom "99")])
+  else none
+
+def exPipeStore : Store :=
+  storeOfNodes exNm (flattenTList [] (staticProgramT exPipe exNm).2) exPipeOracle
 
 def exMapStore : Store := storeOfNodes exNm (staticProgram exMap exNm).2 exMapOracle
 
